@@ -75,6 +75,7 @@ def run_check(prop, tier, only=None, jobs=14, show=None):
         except Exception as e:   # lowering bug: never a verdict
             undecided.append((u.name, 'internal error while lowering: %r' % e))
     if show:
+        for n, w in undecided: print('UNDECIDED unit=%s reason=%s' % (n, w))
         for u in built:
             if u.name == show: print(open(u.unit_c).read())
         return 0
@@ -95,7 +96,7 @@ def run_check(prop, tier, only=None, jobs=14, show=None):
         def go2(up):
             u, p = up
             if p.status != 'PROVED': return None
-            alt = 'kissat' if p.opts.get('solver', 'sat') == 'sat' else 'sat'
+            alt = 'sat' if p.opts.get('solver', 'cadical') == 'cadical' else 'cadical'
             p2 = engine.Proof(p.kind, p.target, dict(p.opts, solver=alt, canary='0'))
             st, reason, results, log, dt = u.run_proof(p2)
             ok = st == 'DONE' and all(r['status'] == 'SUCCESS' for r in results)
@@ -111,7 +112,7 @@ def run_check(prop, tier, only=None, jobs=14, show=None):
         solver_s += p.seconds
         rec = {'unit': u.name, 'proof': p.target, 'kind': p.kind, 'status': p.status, 'obligations': len(p.results),
                'failed': sum(1 for r in p.results if r['status'] != 'SUCCESS'), 'seconds': round(p.seconds, 1),
-               'backend': p.opts.get('solver', 'sat (cbmc built-in minisat)'), 'replaced_contracts': p.replaced,
+               'backend': {'cadical': 'SAT: cadical (cbmc built-in)', 'sat': 'SAT: minisat (cbmc built-in)'}.get(p.opts.get('solver', 'cadical'), p.opts.get('solver')), 'replaced_contracts': p.replaced,
                'canary_reached_end': p.canary_ok, 'loop_contract_obligations': sum(1 for r in p.results if 'loop_invariant' in r.get('property', '') or 'loop invariant' in r.get('description', ''))}
         if p.bounded: rec['bounded'] = 'unwind=%s with unwinding assertions (bounded stand-in, not counted as proved)' % p.opts['unwind']
         proofs_ev.append(rec)
@@ -163,12 +164,21 @@ def run_check(prop, tier, only=None, jobs=14, show=None):
     for kf in {k['id']: k for k, _, _, _ in known_hits}.values():
         out_lines.append('KNOWN-FINDING: property=%s %s' % (prop, kf['what']))
     replay_paths = []
+    nviol = 0
     for u, p, fails in violations:
         path, reproduced = make_replay(prop, u, p, fails)
         replay_paths.append(path)
+        loose = u.unannotated_loops(p)
+        if not reproduced and loose:
+            # undischarged != violated: the proof contains loops that the sidecar does not annotate (new or reshaped
+            # code), abstracted by havoc; without a failing input on the real code this is not a verdict
+            undecided.append((u.name + ':' + p.target, 'obligation %s failed, but the proof contains loop(s) without a loop contract (%s) and native replay found no failing input: undischarged, not a verdict (replay file %s)'
+                              % (fails[0].get('property'), ', '.join(loose), path)))
+            continue
         line = 'VIOLATION property=%s replay=%s' % (prop, path)
         if not reproduced: line += ' obligation=%s no-failing-input-found' % fails[0].get('property')
         out_lines.append(line)
+        nviol += 1
         rc = 1
     for name, why in undecided:
         out_lines.append('UNDECIDED property=%s unit=%s reason=%s' % (prop, name, why.replace('\n', ' ')[:600]))
@@ -209,13 +219,13 @@ def run_check(prop, tier, only=None, jobs=14, show=None):
         },
         'assumptions': GLOBAL_ASSUMPTIONS + scan['notes'] + property_assumptions(prop),
         'wall_s': round(time.time() - t0, 1),
-        'violations': len(violations),
+        'violations': nviol,
     }
     os.makedirs(os.path.dirname(evpath), exist_ok=True)
     json.dump(ev, open(evpath, 'w'), indent=1)
     for l in out_lines: print(l)
     print('%s tier=%s: %d proofs, %d obligations, %d discharged, %d bounded stand-ins, %d known findings, %d violations, %d undecided, %.0fs wall (%.0fs solver)'
-          % (prop, tier, len(work), obligations, discharged, len(bounded), len(kf_done), len(violations), len(undecided), time.time() - t0, solver_s))
+          % (prop, tier, len(work), obligations, discharged, len(bounded), len(kf_done), nviol, len(undecided), time.time() - t0, solver_s))
     return rc
 
 def property_assumptions(prop):
